@@ -59,12 +59,16 @@ def main() -> int:
     ap.add_argument("--runs", type=int, default=None)
     ap.add_argument("--jobs", type=int, default=2)
     ap.add_argument("--no-report", action="store_true")
+    ap.add_argument("--reverts", action="store_true", help="mutants/reverts/*.patch: each repaired defect re-introduced")
     a = ap.parse_args()
     items: list[tuple[str, str]] = []
     if a.seeded:
         for meta in sorted(glob.glob(os.path.join(ROOT, "seeded", "*", "meta.json"))):
             m = json.load(open(meta))
             items.append((os.path.join(os.path.dirname(meta), "patch.diff"), m["property"]))
+    elif a.reverts:
+        for p in sorted(glob.glob(os.path.join(ROOT, "mutants", "reverts", "*.patch"))):
+            items.append((p, os.path.basename(p).split("-")[0]))
     else:
         for p in sorted(glob.glob(os.path.join(ROOT, "mutants", "*.patch"))):
             items.append((p, os.path.basename(p).split("-")[0]))
@@ -80,7 +84,7 @@ def main() -> int:
                 print("   ", r.get("tail") or r.get("out"))
             out.append(r)
     if not a.no_report:
-        name = "sensitivity_seeded.json" if a.seeded else "sensitivity_report.json"
+        name = "sensitivity_seeded.json" if a.seeded else ("sensitivity_reverts.json" if a.reverts else "sensitivity_report.json")
         path = os.path.join(ROOT, name)
         prev = {}
         if a.only and os.path.exists(path):
